@@ -6,10 +6,11 @@
 set -u
 ID="$1"; N="$2"; shift 2
 IDS="${*:-C01 C02 C03 C04 C05 C06 C07 C08 C09 C10 C11 C12 C13 C14 C15 C16 C17 C18}"
-OUT=/tmp/seedwork/out-$ID
-RES=/tmp/seedwork/results/$ID-$N.json
+OUT=${SEED_OUTPFX:-/tmp/seedwork/out-}$ID
+RES=${SEED_RESDIR:-/tmp/seedwork/results}/$ID-$N.json
+mkdir -p "$(dirname "$RES")"
 export CARGO_NET_OFFLINE=true
-conf=$(/verif/tools/verify_seed.sh /tmp/wt-$ID "$OUT" "$N" 2>&1)
+conf=$(/verif/tools/verify_seed.sh ${SEED_WTPFX:-/tmp/wt-}$ID "$OUT" "$N" 2>&1)
 echo "$conf" | tail -4
 echo "$conf" | grep -q SEED-CONFIRMED || { echo "{\"seed\":\"$ID-$N\",\"confirmed\":false}" > "$RES"; exit 1; }
 # scratch harness
